@@ -775,3 +775,22 @@ def bag_is_empty(x):
     if x is None:
         raise ValueError("intermediate not available to the harness")
     return len(list(x)) == 0
+
+
+def bag_subset(a, b):
+    lb = list(b)
+    return all(x in lb for x in a)
+
+
+def one_edit_bag(x, alphabet):
+    out = []
+    for i in range(len(x)):
+        out.append(x[:i] + x[i + 1:])
+        out.extend(x[:i] + a + x[i + 1:] for a in alphabet if a != x[i])
+    for i in range(len(x) + 1):
+        out.extend(x[:i] + a + x[i:] for a in alphabet)
+    return out
+
+
+def one_sub_bag(x, alphabet):
+    return [x[:i] + a + x[i + 1:] for i in range(len(x)) for a in alphabet if a != x[i]]
